@@ -82,8 +82,12 @@ def execute(chooser, ops, profile, board_kwargs=None):
     # an op may carry a fourth element: which of two boards (each on its own port) it goes to
     kwargs_list = board_kwargs["pair"] if board_kwargs and "pair" in board_kwargs \
         else [board_kwargs or {}]
-    boards = [LegacyBoard(**kw) for kw in kwargs_list]
+    boards = [LegacyBoard(**{k: v for k, v in kw.items() if k != "port_timeout"})
+              for kw in kwargs_list]
     ports = [FakePort(brd, chooser, profile) for brd in boards]
+    for port_0, kw in zip(ports, kwargs_list):
+        if "port_timeout" in kw:            # what the port object says its read timeout is
+            port_0.timeout = kw["port_timeout"]
     viols = []
     obs = []
     states = []
@@ -195,7 +199,7 @@ def execute(chooser, ops, profile, board_kwargs=None):
 
 def board_expected(board, req_index, board_kwargs=None):
     """Data line the board produced for its request number req_index (0-based), or None."""
-    probe = LegacyBoard(**(board_kwargs or {}))
+    probe = LegacyBoard(**{k: v for k, v in (board_kwargs or {}).items() if k != "port_timeout"})
     probe.version, probe.banner = board.version, board.banner
     lines = None
     for request in board.requests[:req_index + 1]:
@@ -345,6 +349,15 @@ def run(ctx):
             jobs.append(((("query", spelt, False), ("query", "QB\r", True)), 1, "seq", known))
             jobs.append(((("query", "V\r", True), ("query", spelt, False),
                           ("query", "QM\r", True)), 0, "seq", known))
+    # ports opened with another read timeout than the library's own 1 s (None = blocking, 0 =
+    # non-blocking, 50 ms, 2 s, 5 s, a minute): "up to 100 empty reads" counts reads, whatever
+    # the port says a read may take
+    for port_timeout in (None, 0, 0.05, 1.5, 2.0, 5.0, 60):
+        slow = {"port_timeout": port_timeout}
+        for first in (("query", "QB\r"), ("query", "V\r"), ("command", "SL,7\r")):
+            jobs.append(((first + (True,),), 2, "single", slow))
+            for second in (("query", "QT\r"), ("query", "QM\r"), ("command", "EM,1,1\r")):
+                jobs.append(((first + (False,), second + (True,)), 2, "seq", slow))
     # long sessions: dozens of requests on one port (a counter, a buffer, a drift that only
     # shows after many exchanges), every single deviation at every point of the session
     steady = [op for op in ALPHABET if op[1].strip() != "RB"]
